@@ -1,7 +1,7 @@
 From Coq Require Import Extraction ExtrOcamlBasic ExtrOcamlString.
 From GW Require Import Base ObjXml Objects ObjRfc ObjCheck ObjCodecs.
 Extraction Language OCaml.
-Extraction "model_c10.ml" check_query check_multiget check_find check_propfind check_get check_put check_putseq
+Extraction "model_c10.ml" check_query check_multiget check_find check_propfind check_get check_put check_putseq verdict_and verdict_settle verdict_ok verdict_fail verdict_break
   check_doc check_vdoc rfc4918_read_multistatus rfc_write run_call e2e_query e2e_multiget e2e_find
   e2e_get e2e_put server_query server_multiget server_propfind_homeset server_propfind_collection
   xtree_eqb dec_of_Z
